@@ -1,4 +1,4 @@
-"""C17 SafeInt: all operand pairs (8-bit; 16-bit in thorough) + boundary lattices of wider types vs __int128."""
+"""C17 SafeInt: all operand pairs (8-bit), all values x dense lattice (16-bit, thorough) + boundary lattices of wider types vs __int128."""
 import json, os, subprocess, sys
 import vbuild, vcheck
 
@@ -16,12 +16,12 @@ def main(tier, seed):
     vcheck.absorb(chk, res)
     chk.cov['evaluations'] = chk.cov.get('ops', 0) + chk.cov.get('conversions', 0) + chk.cov.get('mixed_ops', 0)
     vcheck.finalize_classes(chk)
-    chk.set('rule', 'every operand pair of SafeInt<int8/uint8> (and int16/uint16 in thorough) x {+,-,*}; full cross '
+    chk.set('rule', 'every operand pair of SafeInt<int8/uint8> x {+,-,*} (thorough adds, for int16/uint16, every value paired in both operand orders with a dense value lattice: all |v|<=300, 300 next to min/max, 2^k+-3, quotient neighbourhoods, every 61st value); full cross '
             'product of a boundary lattice (min,max,+-2^k+-1, sqrt and quotient neighbourhoods) for 16/32/64-bit '
             'types; converting constructor over all (U,T) pairs; mixed overloads. Oracle: __int128 exact result. '
             'A class is (type, op, outcome exact|overflow, operand sign pattern); distinct_nontrivial counts classes '
             'observed.')
-    chk.set('bounds', {'exhaustive_pair_types': ['int8', 'uint8'] + (['int16', 'uint16'] if tier == 'thorough' else []),
+    chk.set('bounds', {'exhaustive_pair_types': ['int8', 'uint8'], 'all_values_x_dense_lattice_types': (['int16', 'uint16'] if tier == 'thorough' else []),
                        'lattice_types': ['int16', 'uint16', 'int32', 'uint32', 'long', 'ulong', 'llong', 'ullong']})
     chk.assumptions += ['clang UBSan (-fno-sanitize-recover) active: any signed overflow inside SafeInt aborts the shard',
                         'mixed-operand overloads are only required to be exact-or-throw (operand conversion may throw)']
